@@ -16,6 +16,7 @@ from decimal import Decimal
 import rdflib
 from rdflib import BNode, Graph, Literal, URIRef
 from rdflib.namespace import XSD
+from rdflib.plugins.sparql import prepareQuery
 
 from .. import run as R
 from .. import seams
@@ -66,6 +67,39 @@ GRAPHS = {
     "nonnum": [(A, P, I(1)), (A, P, A), (B, P, STR("s")), (B, P, I(2))],
     "strings": [(A, Q, STR("b")), (A, Q, STR("a")), (B, Q, STR("c")), (A, P, I(1))],
 }
+
+
+# a complete family next to the hand-picked graphs: every graph with <= k triples over this universe (named "u:<indices>")
+UNIVERSE = [(s_, p_, o_) for s_ in (A, B) for p_ in (P, Q) for o_ in (I(1), I(2), I(0), D("1.5"), STR("a"), STR(""), A)]
+
+
+def universe_names(k):
+    out = []
+    for r in range(1, k + 1):
+        for idx in itertools.combinations(range(len(UNIVERSE)), r):
+            out.append("u:" + ",".join(map(str, idx)))
+    return out
+
+
+def graph_triples(gname):
+    if gname.startswith("u:"):
+        return [UNIVERSE[int(i)] for i in gname[2:].split(",")]
+    return GRAPHS[gname]
+
+
+_GRAPH_CACHE = {}
+_QUERY_CACHE = {}
+_FRESH = [False]  # True: parse the query text anew for every evaluation (used to re-decide every violation)
+
+
+def graph_for(gname):
+    if _FRESH[0]:
+        return build_graph(graph_triples(gname))
+    if gname not in _GRAPH_CACHE:
+        if len(_GRAPH_CACHE) > 4000:
+            _GRAPH_CACHE.clear()
+        _GRAPH_CACHE[gname] = build_graph(graph_triples(gname))
+    return _GRAPH_CACHE[gname]
 
 
 def mkterm(k):
@@ -262,12 +296,18 @@ def rdflib_rows(res):
 def run_query(g, q, horizon=20.0):
     with seams.watchdog(horizon), warnings.catch_warnings():
         warnings.simplefilter("ignore")
+        if not _FRESH[0]:
+            # each query text is parsed once per worker and evaluated on many graphs; every violation found this way is decided again
+            # from a fresh parse on a fresh graph (see _batch)
+            if q not in _QUERY_CACHE:
+                _QUERY_CACHE[q] = prepareQuery(q)
+            q = _QUERY_CACHE[q]
         res = g.query(q)
         return rdflib_rows(res)
 
 
 def ref_rows(pname, gname):
-    ev = S.Evaluator(S.Dataset(GRAPHS[gname]))
+    ev = S.Evaluator(S.Dataset(graph_triples(gname)))
     return ev.pattern(PATTERNS[pname])
 
 
@@ -300,7 +340,7 @@ def check_distinct_projection(pname, gname, vars_, distinct):
                 u.append(r)
         want = u
     try:
-        vs, got = run_query(build_graph(GRAPHS[gname]), q)
+        vs, got = run_query(graph_for(gname), q)
     except Exception as e:  # noqa: BLE001
         return ("%s|raises|%s" % ("distinct" if distinct else "projection", type(e).__name__), {"query": q, "exc": repr(e)[:300]})
     if vs != list(vars_):
@@ -334,7 +374,7 @@ def check_order(pname, gname, keys, limit, offset):
     q = base + ("" if limit is None else " LIMIT %d" % limit) + ("" if offset is None else " OFFSET %d" % offset)
     vars_ = sorted(S.scope(PATTERNS[pname]))
     want = [tuple(m.get(v) for v in vars_) for m in ref_rows(pname, gname)]
-    g = build_graph(GRAPHS[gname])
+    g = graph_for(gname)
     try:
         vs, full = run_query(g, base)
         vs2, got = (vs, full) if (limit is None and offset is None) else run_query(g, q)
@@ -447,7 +487,7 @@ def check_aggregate(pname, gname, grouping, agg, wrap, having):
             a = aw
         want.append((k, a))
     try:
-        vs, got = run_query(build_graph(GRAPHS[gname]), q)
+        vs, got = run_query(graph_for(gname), q)
     except Exception as e:  # noqa: BLE001
         return ("aggregate|%s|raises|%s" % (base_name, type(e).__name__), {"query": q, "exc": repr(e)[:300]})
     cls = "%s%s|%s|%s" % (base_name, "-distinct" if distinct else "", "implicit-group" if not gvars else "group-by",
@@ -474,9 +514,10 @@ def check_aggregate(pname, gname, grouping, agg, wrap, having):
 
 def all_cases(thorough):
     cases = []
+    gnames = list(GRAPHS) + universe_names(3 if thorough else 2)
     for pname in PATTERNS:
         pv = sorted(S.scope(PATTERNS[pname]))
-        for gname in GRAPHS:
+        for gname in gnames:
             for r in range(1, len(pv) + 1):
                 for vars_ in itertools.combinations(pv, r):
                     for distinct in (False, True):
@@ -512,10 +553,16 @@ def _batch(cases):
     nontriv = 0
     for c in cases:
         v = run_case(c)
+        if v and v != "skip":
+            _FRESH[0] = True
+            try:
+                v = run_case(c)  # the verdict is the one from a fresh parse on a fresh graph
+            finally:
+                _FRESH[0] = False
         if v == "skip":
             continue
         n += 1
-        if c[2] != "single":
+        if len(graph_triples(c[2])) > 1:
             nontriv += 1
         if v:
             viols.append({"sig": v[0], "detail": v[1], "case": {"c08": list(c)}})
@@ -531,9 +578,9 @@ def run(ctx):
         ctx.add("evaluations", n)
         ctx.add("distinct_nontrivial", nt)
     ctx.cov["patterns"] = len(PATTERNS)
-    ctx.cov["graphs"] = len(GRAPHS)
+    ctx.cov["graphs"] = len(GRAPHS) + len(universe_names(3 if thorough else 2))
     ctx.cov["exhaustive"] = True
-    ctx.cov["rule"] = ("%d base patterns (BGP, OPTIONAL with unbound, UNION with duplicates) x %d graphs (empty, integers, duplicates, integer/decimal/double promotion, "
+    ctx.cov["rule"] = ("%d base patterns (BGP, OPTIONAL with unbound, UNION with duplicates) x (%d hand-picked graphs + every graph with <= k triples over a 28-triple universe with 0, \"\", decimals and an IRI object) (empty, integers, duplicates, integer/decimal/double promotion, "
                        "mixed term kinds with a blank node, non-numeric values, strings) x { every projection subset x DISTINCT; %d ORDER BY key lists x LIMIT/OFFSET menu; "
                        "GROUP BY in {implicit, ?s, ?s ?v} x %d aggregates (with DISTINCT, custom separator) x {bare, inside an expression, HAVING} }. Oracle: reference "
                        "pattern evaluator + SPARQL 18.5 modifiers; ORDER BY only constrained on pairs the Recommendation orders. Non-trivial: graph with > 1 triple." % (
@@ -544,6 +591,7 @@ def run(ctx):
 
 
 def replay(ctx, case):
+    _FRESH[0] = True
     v = run_case(case["c08"])
     if v and v != "skip":
         return [{"sig": v[0], "case": case, "detail": v[1]}]
@@ -555,6 +603,6 @@ META = {
             "promotion, mixed term kinds and empty groups: DISTINCT and projection as multisets, ORDER BY as a permutation in which no later row precedes an "
             "earlier one under the pairs SPARQL orders, LIMIT/OFFSET as the slice of the ordered sequence, GROUP BY with COUNT/SUM/AVG/MIN/MAX/SAMPLE/"
             "GROUP_CONCAT (DISTINCT, separator, inside expressions, HAVING, implicit and empty groups) against the values section 18.5.1 defines.",
-    "note": "Small scope: 4 patterns x 8 graphs; orderings the Recommendation leaves open are not constrained; numeric results compared by datatype and value.",
+    "note": "Small scope: 4 patterns x (8 hand-picked graphs + all graphs of <= 2 (quick) / 3 (thorough) triples over a 28-triple universe); orderings the Recommendation leaves open are not constrained; numeric results compared by datatype and value.",
     "technique": "exhaustive enumeration of modifier/aggregate combinations against a reference implementation of SPARQL 18.5",
 }
